@@ -117,7 +117,13 @@ def table_case(draw, orders=(1, 2, 3), and_bias=False):
     for _ in range(draw(st.integers(0, 6))):
         rows.append([draw(st.integers(0, len(entities) - 1)), draw(st.integers(0, len(entities) - 1)), draw(score)])
     rows = draw(st.permutations(rows)) if rows else rows
-    return {'label': label, 'label_ann': ann(), 'entities': entities, 'rows': [list(r) for r in rows],
+    label_alt = None
+    if draw(st.integers(0, 3)) == 0 and rows:
+        # the label may be spelled in two ways in one table (plain and annotated, or two annotations from concatenated runs)
+        label_alt = draw(st.sampled_from(['plain', [2, 99], [3, 100]]))
+        rows = [r for r in rows if not (r[0] < 0 and r[1] < 0)]      # label-label rows would be listed under either spelling
+        rows = [[(-2 if (x == -1 and draw(st.booleans())) else x) for x in r[:2]] + [r[2]] for r in rows]
+    return {'label': label, 'label_ann': ann(), 'label_alt': label_alt, 'entities': entities, 'rows': [list(r) for r in rows],
             'heuristic': draw(st.sampled_from(MI_HEUR + MI_HEUR + OTHER_HEUR)), 'order': order,
             'int_scores': draw(st.booleans())}
 
@@ -177,6 +183,8 @@ def run_summary(case):
     """Write the table, run the summary task, return (names, singles rows, aggregated rows or None)."""
     names = [_full(e) for e in case['entities']]
     label_full = _full({'parts': [case['label']], 'ann': case['label_ann']})
+    alt = case.get('label_alt')
+    label_alt_full = None if alt is None else _full({'parts': [case['label']], 'ann': None if alt == 'plain' else alt})
     tmp = FORCED_DIR[0] or tempfile.mkdtemp(prefix='c18-')
     try:
         for stale in ('feature_singles.tsv', 'feature_singles_aggregated.tsv'):
@@ -185,7 +193,8 @@ def run_summary(case):
         with open(os.path.join(tmp, 'pairwise_ranks.tsv'), 'w', encoding='utf-8') as fh:
             fh.write('FeatureA\tFeatureB\tScore\n')
             for a, b, s in case['rows']:
-                fh.write('%s\t%s\t%s\n' % (label_full if a < 0 else names[a], label_full if b < 0 else names[b],
+                lab = lambda x: label_full if x == -1 or label_alt_full is None else label_alt_full   # noqa: E731
+                fh.write('%s\t%s\t%s\n' % (lab(a) if a < 0 else names[a], lab(b) if b < 0 else names[b],
                                            _fmt(s, case['int_scores'])))
         args = SimpleNamespace(output_folder=tmp, label_column=case['label'], heuristic=case['heuristic'], tldr='False',
                                interaction_order=case['order'], task='ranking_summary')
@@ -230,6 +239,58 @@ def oracle_rerun(case, rec):
     finally:
         FORCED_DIR[0] = None
         shutil.rmtree(d, ignore_errors=True)
+
+
+@st.composite
+def big_table_case(draw):
+    """A ranking table of more than 100 000 rows (a pairwise run over a few hundred features)."""
+    return {'big': {'features': draw(st.integers(455, 480)), 'seed': draw(st.integers(0, 2**32 - 1)),
+                    'heuristic': draw(st.sampled_from(['MI-numba-randomized', 'surrogate-SGD']))}}
+
+
+def oracle_big_table(case, rec):
+    import numpy as np
+    g = case['big']
+    rng = np.random.Generator(np.random.PCG64(int(g['seed'])))
+    k = int(g['features'])
+    names = [f'feat{i}-({int(rng.integers(1, 900))}; 100)' for i in range(k)]
+    label = 'label-(2; 100)'
+    tmp = tempfile.mkdtemp(prefix='c18-big-')
+    try:
+        label_scores = {}
+        with open(os.path.join(tmp, 'pairwise_ranks.tsv'), 'w') as fh:
+            fh.write('FeatureA\tFeatureB\tScore\n')
+            # label rows are spread over the whole file, feature-feature rows in between
+            ff = rng.random(k * (k - 1) // 2)
+            idx = 0
+            for i in range(k):
+                sc = [round(float(x), 6) for x in rng.random(2)]
+                label_scores[names[i]] = sc
+                fh.write(f'{names[i]}\t{label}\t{sc[0]}\n')
+                for j in range(i + 1, k):
+                    fh.write(f'{names[i]}\t{names[j]}\t{ff[idx]:.6f}\n')
+                    idx += 1
+                fh.write(f'{label}\t{names[i]}\t{sc[1]}\n')
+        args = SimpleNamespace(output_folder=tmp, label_column='label', heuristic=g['heuristic'], tldr='False', interaction_order=1,
+                               task='ranking_summary')
+        with contextlib.redirect_stdout(io.StringIO()):
+            outrank_task_result_summary(args)
+        singles = _parse(os.path.join(tmp, 'feature_singles.tsv'))
+    finally:
+        shutil.rmtree(tmp, ignore_errors=True)
+    rec.nt(True, key=case)
+    rec.cls('table>100000-rows')
+    med = {n: sum(v) / 2.0 for n, v in label_scores.items()}
+    got = dict(singles)
+    if set(got) != set(med):
+        raise Violation(f'{len(set(med) - set(got))} of {k} label-scored features are missing from feature_singles.tsv '
+                        f'(table of {k * (k - 1) // 2 + 2 * k} rows); unexpected: {sorted(set(got) - set(med))[:3]}', kind='C18/singles')
+    lo, hi = min(med.values()), max(med.values())
+    mi = 'MI' in g['heuristic']
+    for n, m in med.items():
+        exp = (m - lo) / (hi - lo) if mi else m
+        if abs(got[n] - exp) > 1e-9:
+            raise Violation(f'score of {n} is {got[n]!r}, expected {exp!r}', kind='C18/singles')
 
 
 def _median(v):
@@ -283,8 +344,8 @@ def oracle_singles(case, rec):
         rec.cls('no-label-rows')
         return
     lo, hi = min(med.values()), max(med.values())
-    if mi and hi == lo:
-        rec.cls('excluded:mi-degenerate')
+    if mi and (hi == lo or hi - lo <= 1e-12 * max(abs(hi), abs(lo))):
+        rec.cls('excluded:mi-degenerate')      # 0/0, or a spread of a few ulps (ill-conditioned normalisation)
         return
     exp = {n: (m - lo) / (hi - lo) for n, m in med.items()} if mi else med
     got = dict(singles)
@@ -350,7 +411,7 @@ def oracle_aggregated(case, rec):
                             f'(summary: {singles})', kind='C18/aggregated')
 
 
-ORACLES = {'C18/singles': oracle_singles, 'C18/aggregated': oracle_aggregated, 'C18/rerun': oracle_rerun}
+ORACLES = {'C18/big-table': oracle_big_table, 'C18/singles': oracle_singles, 'C18/aggregated': oracle_aggregated, 'C18/rerun': oracle_rerun}
 
 
 def run(ctx):
@@ -358,6 +419,7 @@ def run(ctx):
     KNOWN_PLAIN_AND = ctx.known('plain-name-containing-AND')
     drive(ctx, [
         Clause('C18/singles', singles_strategy, oracle_singles, quick=1500, thorough=80000, quick_shards=6),
+        Clause('C18/big-table', big_table_case, oracle_big_table, quick=2, thorough=16, quick_shards=2, thorough_shards=8),
         Clause('C18/rerun', rerun_case, oracle_rerun, quick=300, thorough=12000, quick_shards=4),
         Clause('C18/aggregated', aggregated_strategy, oracle_aggregated, quick=1000, thorough=40000, quick_shards=6),
     ])
